@@ -77,72 +77,6 @@ Proof.
 Qed.
 Print Assumptions C06_real_deriv_density.
 
-(* evaluate_density_gradient: component k is the derivative of rho along axis k *)
-Theorem C06_real_gradient :
-  forall (basis : list (shell R)), List.Forall shell_wf basis ->
-  forall (P : nat -> nat -> R), (forall a b, P a b = P b a) -> forall x y z,
-  is_derive (fun t => rhob basis P t y z) x (eval RK (at_pt (Gb basis P) x y z) (grad_model RK 0))
-  /\ is_derive (fun t => rhob basis P x t z) y (eval RK (at_pt (Gb basis P) x y z) (grad_model RK 1))
-  /\ is_derive (fun t => rhob basis P x y t) z (eval RK (at_pt (Gb basis P) x y z) (grad_model RK 2)).
-Proof. exact (fun basis W P Ps => grad_real (nfun basis) P (bfun basis) (Hfb basis W) Ps). Qed.
-Print Assumptions C06_real_gradient.
-
-(* evaluate_density_laplacian = the Laplacian of the real density *)
-Theorem C06_real_laplacian :
-  forall (basis : list (shell R)), List.Forall shell_wf basis ->
-  forall (P : nat -> nat -> R), (forall a b, P a b = P b a) -> forall x y z,
-  eval RK (at_pt (Gb basis P) x y z) (lap_model RK) = lap3 (rhob basis P) x y z.
-Proof. exact (fun basis W P Ps => lap_real (nfun basis) P (bfun basis) (Hfb basis W) Ps). Qed.
-Print Assumptions C06_real_laplacian.
-
-(* evaluate_density_hessian: entry (p,q) = d/dr_p d/dr_q rho *)
-Theorem C06_real_hessian :
-  forall (basis : list (shell R)), List.Forall shell_wf basis ->
-  forall (P : nat -> nat -> R), (forall a b, P a b = P b a) ->
-  forall p q x y z, (p < 3)%nat -> (q < 3)%nat ->
-  eval RK (at_pt (Gb basis P) x y z) (hess_model RK p q) = pdk p (pdk q (rhob basis P)) x y z.
-Proof. exact (fun basis W P Ps => hess_real (nfun basis) P (bfun basis) (Hfb basis W) Ps). Qed.
-Print Assumptions C06_real_hessian.
-
-(* consequently the real second partial derivatives of rho commute (Schwarz, here a corollary of hess_sym) and
-   the trace of the real Hessian is the real Laplacian *)
-Theorem C06_real_schwarz_and_trace :
-  forall (basis : list (shell R)), List.Forall shell_wf basis ->
-  forall (P : nat -> nat -> R), (forall a b, P a b = P b a) ->
-  (forall p q x y z, (p < 3)%nat -> (q < 3)%nat ->
-     pdk p (pdk q (rhob basis P)) x y z = pdk q (pdk p (rhob basis P)) x y z)
-  /\ (forall x y z,
-     pdk 0 (pdk 0 (rhob basis P)) x y z + pdk 1 (pdk 1 (rhob basis P)) x y z + pdk 2 (pdk 2 (rhob basis P)) x y z
-     = lap3 (rhob basis P) x y z).
-Proof.
-  exact (fun basis W P Ps =>
-    conj (schwarz_rho (nfun basis) P (bfun basis) (Hfb basis W) Ps)
-         (hess_trace_real (nfun basis) P (bfun basis) (Hfb basis W) Ps)).
-Qed.
-Print Assumptions C06_real_schwarz_and_trace.
-
-(* positive-definite KED = 1/2 sum_ab P_ab grad bfun_a . grad bfun_b (real gradients);
-   general KED = t_+ + alpha * Laplacian(rho) *)
-Theorem C06_real_kinetic :
-  forall (basis : list (shell R)), List.Forall shell_wf basis ->
-  forall (P : nat -> nat -> R), (forall a b, P a b = P b a) -> forall alpha x y z,
-  eval RK (at_pt (Gb basis P) x y z) (ked_model RK) = tplusb basis P x y z
-  /\ eval RK (at_pt (Gb basis P) x y z) (gked_model RK alpha)
-     = tplusb basis P x y z + alpha * lap3 (rhob basis P) x y z
-  /\ tplusb basis P x y z
-     = / 2 * (rsum (nfun basis) (fun a => rsum (nfun basis) (fun b =>
-                 P a b * pdk 0 (bfun basis a) x y z * pdk 0 (bfun basis b) x y z))
-              + rsum (nfun basis) (fun a => rsum (nfun basis) (fun b =>
-                 P a b * pdk 1 (bfun basis a) x y z * pdk 1 (bfun basis b) x y z))
-              + rsum (nfun basis) (fun a => rsum (nfun basis) (fun b =>
-                 P a b * pdk 2 (bfun basis a) x y z * pdk 2 (bfun basis b) x y z))).
-Proof.
-  exact (fun basis W P Ps alpha x y z =>
-    conj (ked_real (nfun basis) P (bfun basis) x y z)
-      (conj (gked_real (nfun basis) P (bfun basis) (Hfb basis W) Ps alpha x y z) eq_refl)).
-Qed.
-Print Assumptions C06_real_kinetic.
-
 (* P = C C^T (r columns): the real density and the real positive-definite KED are non-negative everywhere *)
 Theorem C06_real_nonneg :
   forall (basis : list (shell R)) (r : nat) (C : nat -> nat -> R) x y z,
